@@ -22,7 +22,7 @@ ARCH = """arch:
     leak_power: 0
     area: 0
     tensors: {{keep: {glbkeep}, may_keep: All}}
-    actions:
+{gbpv}    actions:
     - {{name: read, energy: {ge}, throughput: {gthr}}}
     - {{name: write, energy: {ge}, throughput: {gthr}}}
 {local}  - !Compute
@@ -53,12 +53,13 @@ def gen_spec(rng, max_einsums=3, allow_three=True):
          "ge": rng.choice([1, 2]), "gthr": rng.choice(["inf", 1, 2, 8]), "mthr": rng.choice(["inf", 0.5, 1, 2]), "lkeep": rng.choice(["All", "weight", "input | output"]), "three": three, "lsz": rng.choice([8, 16, 32, 64]),
          "long_lived": n == 3 and rng.random() < 0.3, "bpv": rng.choice([8, 8, 4, 16]),
          "max_fused_loops": rng.choice([None, None, 1, 2]), "max_fused_loops_per_rank_variable": rng.choice([1, 1, 2])}
+    p["gbpv"] = rng.choice([None, None, None, "weight: 16", "input: 4", "output: 16"])      # an Einsum-dependent attribute (renames resolve per Einsum)
     return p
 
 
 def yaml_text(p):
     glbkeep = "~MainMemory"
-    arch = ARCH.format(mme=p["mme"], mthr=p.get("mthr", "inf"), glb=p["glb"], ge=p["ge"], gthr=p["gthr"], glbkeep=glbkeep, local=LOCAL.format(lsz=p["lsz"], lkeep=p.get("lkeep", "All")) if p["three"] else "")
+    arch = ARCH.format(gbpv=("    bits_per_value: {" + p["gbpv"] + "}\n") if p.get("gbpv") else "", mme=p["mme"], mthr=p.get("mthr", "inf"), glb=p["glb"], ge=p["ge"], gthr=p["gthr"], glbkeep=glbkeep, local=LOCAL.format(lsz=p["lsz"], lkeep=p.get("lkeep", "All")) if p["three"] else "")
     w = ["workload:", "  iteration_space_shape:", f"    m: 0 <= m < {p['M']}"]
     for i, x in enumerate(p["ns"]):
         w.append(f"    n{i}: 0 <= n{i} < {x}")
@@ -176,3 +177,60 @@ def singles(pm):
                 lst.append((gi, ri, PmappingGroup(g.compatibility, g.mappings.update(data=data, skip_pareto=True))))
         out[e] = lst
     return out
+
+
+# ---------------------------------------------------------------- fused witness family (C01): concrete fused mappings of a 2-matmul chain
+def fused_family(rng, p, cap=40):
+    """concrete mappings that keep the intermediate T1 only in the GlobalBuffer under fused loops over m and / or n1
+       (tile shapes = divisors), with optional GlobalBuffer holders for the other tensors and random inner loop orders"""
+    def divs(x):
+        return [k for k in range(1, x + 1) if x % k == 0]
+    M, n0, n1, n2 = p["M"], p["ns"][0], p["ns"][1], p["ns"][2]
+    fam = []
+    for mt in divs(M):
+        for nt in divs(n1):
+            for t0 in (False, True):
+                for t2 in (False, True):
+                    fam.append((mt, nt, t0, rng.random() < 0.25, t2, rng.random() < 0.25, rng.random() < 0.3, rng.random() < 0.3))
+    rng.shuffle(fam)
+    out = []
+    for mt, nt, t0, w0, t2, w1, o0, o1 in fam[:cap]:
+        def branch(e, ra, rb, hold_a, hold_w, order):
+            loops = [f"      - !Temporal {{rank_variable: m, tile_shape: 1}}", f"      - !Temporal {{rank_variable: {ra}, tile_shape: 1}}"]
+            if order:
+                loops.reverse()
+            lines = ["    - !Nested", "      nodes:"] + loops
+            if hold_a:
+                lines.append(f"      - !Storage {{tensors: [{hold_a}], component: GlobalBuffer}}")
+            if hold_w:
+                lines.append(f"      - !Storage {{tensors: [{hold_w}], component: GlobalBuffer}}")
+            lines.append(f"      - !Temporal {{rank_variable: {rb}, tile_shape: 1}}")
+            lines.append(f"      - !Compute {{einsum: {e}, component: MAC}}")
+            return lines
+        y = ["mapping:", "  nodes:", "  - !Storage {tensors: [T0, W0, W1, T2], component: MainMemory}",
+             f"  - !Temporal {{rank_variable: m, tile_shape: {mt}}}", f"  - !Temporal {{rank_variable: n1, tile_shape: {nt}}}",
+             "  - !Storage {tensors: [T1], component: GlobalBuffer}", "  - !Sequential", "    nodes:"]
+        y += branch("Matmul0", "n0", "n1", "T0" if t0 else None, "W0" if w0 else None, o0)
+        y += branch("Matmul1", "n2", "n1", "T2" if t2 else None, "W1" if w1 else None, o1)
+        out.append(({"m_tile": mt, "n1_tile": nt, "T0_in_GLB": t0, "W0_in_GLB": w0, "T2_in_GLB": t2, "W1_in_GLB": w1}, "\n".join(y) + "\n"))
+    return out
+
+
+def evaluate_family(af, evaluate_mapping, p, d, fam):
+    """-> list of (desc, yaml, energy, latency) for the members the real model accepts (valid structure, within every capacity)"""
+    a, w = yaml_text(p)
+    (d / "fa.yaml").write_text(a)
+    (d / "fw.yaml").write_text(w)
+    out, rejected = [], 0
+    for desc, y in fam:
+        (d / "fm.yaml").write_text(y)
+        try:
+            s = af.Spec.from_yaml(str(d / "fa.yaml"), str(d / "fw.yaml"), str(d / "fm.yaml"))
+            r = evaluate_mapping(s)
+            if any(v > 1 + 1e-9 for v in r.resource_usage().values()):
+                rejected += 1
+                continue
+            out.append((desc, y, float(r.energy()), float(r.latency())))
+        except Exception:  # noqa
+            rejected += 1
+    return out, rejected
